@@ -42,10 +42,12 @@ logging.getLogger('pyg').setLevel(logging.ERROR)
 
 NAN = 'fresh-nan'          # placeholder: a fresh float('nan') object per occurrence
 SNAN = 'shared-nan'        # the one np.nan object
+XNAN = 'numpy-scalar-nan'  # a NaN held by a fresh np.float64 scalar
 INF = float('inf')
 KEYS = [None, 0, 1, 2, 3, 1.0, 2.0, 2.5, -0.25, 'a', 'b', '', D(2020, 1, 1), D(2020, 1, 2, 12), NAN, NAN, SNAN, INF, -INF,
         2 ** 53, 2 ** 53 + 1, float(2 ** 53),      # neighbouring ints beyond float precision are distinct keys
-        datetime.date(2020, 1, 1), datetime.date(2020, 1, 2)]   # a date is the datetime of its midnight (as_primitive); wire spelling DT:
+        datetime.date(2020, 1, 1), datetime.date(2020, 1, 2),   # a date is the datetime of its midnight (as_primitive); wire spelling DT:
+        XNAN, np.int64(2), np.float64(1.0)]                     # numpy scalars (what a DataFrame column hands out)
 VALS = [None, 1, 2, 'p', 'q', 0.5]
 
 
@@ -54,6 +56,8 @@ def cell(v):
         return 'F:nan'
     if v is SNAN:
         return 'NF:nan'
+    if v is XNAN:
+        return 'XF:nan'
     return enc(v)
 
 
@@ -85,9 +89,9 @@ def rand_rows(rng):
 def rand_pool(rng):
     r = rng.random()
     if r < 0.25:   # numerically equal ints / floats, None and NaN: the equalities the statement singles out
-        return rng.sample([1, 1.0, 2, 2.0, None, NAN, SNAN, 2.5], rng.choice([2, 3, 4]))
-    if r < 0.4:    # NaN heavy
-        return [NAN, SNAN, rng.choice(KEYS)]
+        return rng.sample([1, 1.0, 2, 2.0, None, NAN, SNAN, 2.5, XNAN, np.int64(1), np.float64(2.0)], rng.choice([2, 3, 4]))
+    if r < 0.4:    # NaN heavy: NaN objects of every identity
+        return [NAN, SNAN, XNAN, rng.choice(KEYS)]
     if r < 0.5:    # infinities next to finite numbers and NaN
         return rng.sample([INF, -INF, 1, 2.5, NAN, None], rng.choice([2, 3, 4]))
     if r < 0.9:    # mixed types, few values -> many duplicates, many-to-many matches
